@@ -2,6 +2,8 @@ import RV.C06.Lemmas
 import RV.C06.Fresh
 import RV.C06.PatchLemmas
 import RV.C06.CG
+import RV.C06.PatchTextLemmas
+import RV.C06.TrigLoopLemmas
 /-
   C06 — property theorems (statements first, as `def … : Prop`, then the proofs).
 
@@ -84,6 +86,77 @@ def Statement_cg_roundtrip : Prop :=
     (Iso (s.d.map (toDs s.dflt)) (route .trig (emit .trig s) fresh) ∧
      Iso (s.d.map (toDs s.dflt)) (route .hext (emit .hext s) fresh) ∧
      Iso (s.d.map (toDs s.dflt)) (route .jsonld (emit .jsonld s) fresh))
+
+
+/-! ### Round g — the text level of RDF Patch (`PatchText.lean`): statements -/
+
+/-- The operation codes are recognised on the characters of a line the way `RDFPatchParser.operation` /
+    `eat_op` do it (`startswith` in the order of the enum, then `lstrip`): every code, followed by a blank and
+    anything, is read as itself (no earlier code of the enum is a prefix of it) and is eaten completely. -/
+def Statement_patch_opcode_recognised : Prop :=
+  ∀ (c : PCode) (rest : List Char),
+    opOf (c.text ++ ' ' :: rest) = some c ∧ opOf c.text = some c ∧
+    lstrip c.text (c.text ++ ' ' :: rest) = ' ' :: rest
+
+/-- Line by line: what `_patch_row` writes for triple `t` of graph `g` is read by `parsepatch` as that operation on
+    `(t, g)`; the row has no graph column iff `g` is the default graph; header rows, `TX .` and `TC .` are passed over. -/
+def Statement_patch_line_roundtrip : Prop :=
+  ∀ (s : Src), s.dflt = Name.default →
+    (∀ op g t, parseLine (patchRow s op g t) = .row (op, (t, g))) ∧
+    (∀ op g t, ∃ lab, patchRow s op g t = codeLine (opCode op) (.quad (.plain t.1) t.2.1 (.plain t.2.2) lab) ∧
+      (lab = PLabel.none ↔ g = Name.default)) ∧
+    (∀ hid hprev, ∀ l ∈ writeHeader hid hprev ++ [codeLine .TC .dot], parseLine l = .skip)
+
+/-- The reader is a left fold of `applyRow` over the A / D rows of the document, whatever else the document
+    contains (comments, blank lines, H / TX / TC / TA / PA / PD rows); a raising line stops it where it is. -/
+def Statement_patch_reader_is_fold : Prop :=
+  ∀ (ls : List PLine) (d : List Quad),
+    (parseDoc ls d).1 = apply (docRows ls) d ∧ ((parseDoc ls d).2 = none ↔ NoErr ls)
+
+/-- `serialize(format="patch", target=d2)` on a Dataset, read back: no line raises; the rows are all the adds
+    (exactly the quads of d2 − d1) followed by all the deletes (exactly d1 − d2), i.e. the rows of `diff d1 d2`. -/
+def Statement_patch_text_roundtrip : Prop :=
+  ∀ (s : Src), s.dflt = Name.default → ∀ (d2 : List Quad) (hid hprev : Option Nat),
+    NoErr (serializeDoc none (some d2) hid hprev s) ∧
+    (∃ X Y, docRows (serializeDoc none (some d2) hid hprev s) = tagRows .add X ++ tagRows .del Y ∧
+      SetEq X (qdiff d2 s.d) ∧ SetEq Y (qdiff s.d d2)) ∧
+    (∀ r, r ∈ docRows (serializeDoc none (some d2) hid hprev s) ↔ r ∈ diff s.d d2)
+
+/-- …composed with `patch_any_order`: parsing the written document into d1 gives d2 (text level of the second
+    sentence of the property). -/
+def Statement_patch_text_apply : Prop :=
+  ∀ (s : Src), s.dflt = Name.default → ∀ (d2 : List Quad) (hid hprev : Option Nat),
+    (parseDoc (serializeDoc none (some d2) hid hprev s) s.d).2 = none ∧
+    SetEq (parseDoc (serializeDoc none (some d2) hid hprev s) s.d).1 d2
+
+/-- `operation=` (which wins over `target=`; absent and no target means "add"): the rows are, in this order, the
+    statements of `emitPatch` tagged with the operation; the add document parsed into an empty Dataset gives the
+    dataset, the remove document parsed into the dataset empties it. -/
+def Statement_patch_operation_doc : Prop :=
+  ∀ (s : Src) (hid hprev : Option Nat),
+    (∀ o target, NoErr (serializeDoc (some o) target hid hprev s) ∧
+      docRows (serializeDoc (some o) target hid hprev s) = tagRows o (stmts (emitPatch s))) ∧
+    serializeDoc none none hid hprev s = serializeDoc (some .add) none hid hprev s ∧
+    (DsWF s → ∀ target,
+      SetEq (parseDoc (serializeDoc (some .add) target hid hprev s) []).1 s.d ∧
+      SetEq (parseDoc (serializeDoc (some .del) target hid hprev s) s.d).1 [])
+
+
+/-! ### Round g — the TriG serializer as the loops it runs (`TrigLoop.lean`): statements -/
+
+/-- `preprocess` (dict `_contexts`, empty graphs passed over, a graph listed twice keeps its first place) followed by
+    the loop of `serialize` (entries without subjects passed over, header by identifier) writes exactly the block
+    list `emitTrig` — same blocks, same order — for every source (Dataset or ConjunctiveGraph). -/
+def Statement_trig_loop_refines : Prop := ∀ s : Src, emitTrigLoop s = emitTrig s
+
+/-- `each_triple_one_block` for the loop model, with "ONE block": no two blocks of the document are routed to the
+    same graph; and the round trip through the loop model. -/
+def Statement_each_triple_one_block_trig_loop : Prop :=
+  ∀ (s : Src), DsWF s →
+    (∀ (t : Triple) (g : Name), (t, g) ∈ s.d ↔ ∃ b ∈ emitTrigLoop s, dest b.spell = g ∧ t ∈ b.triples) ∧
+    ((emitTrigLoop s).map (fun b => dest b.spell)).Nodup ∧
+    (∀ b ∈ emitTrigLoop s, b.triples ≠ []) ∧
+    (∀ fresh, Iso s.d (route .trig (emitTrigLoop s) fresh))
 
 /-! ### Proofs -/
 
@@ -181,6 +254,127 @@ theorem patch_rows_roundtrip : Statement_patch_rows_roundtrip := by
     · next h => simp [h]
     · next h => simp [h]
 
+
+/-! ### Round g — text level of RDF Patch: proofs -/
+
+theorem patch_opcode_recognised : Statement_patch_opcode_recognised := by
+  intro c rest
+  cases c <;>
+    simp [opOf, opOfIn, allCodes, PCode.text, startsWith, lstrip]
+
+theorem patch_line_roundtrip : Statement_patch_line_roundtrip := by
+  intro s h
+  refine ⟨?_, ?_, ?_⟩
+  · intro op g t
+    rw [parseLine_patchRow, dest_patchSpell h]
+  · intro op g t
+    refine ⟨spellLabel (patchSpell s g), rfl, ?_⟩
+    unfold patchSpell nqSpell
+    rw [h]
+    by_cases hg : g = Name.default
+    · simp [hg, spellLabel]
+    · simp [hg, spellLabel]
+  · intro hid hprev l hl
+    rcases List.mem_append.mp hl with h1 | h1
+    · exact skip_writeHeader hid hprev l h1
+    · simp only [List.mem_singleton] at h1
+      subst h1
+      exact parseLine_tc _
+
+theorem patch_reader_is_fold : Statement_patch_reader_is_fold := by
+  intro ls
+  induction ls with
+  | nil => intro d; exact ⟨rfl, by simp [parseDoc, NoErr]⟩
+  | cons l ls ih =>
+    intro d
+    simp only [parseDoc, docRows]
+    cases hp : parseLine l with
+    | skip =>
+      refine ⟨(ih d).1, (ih d).2.trans ⟨fun h => NoErr.cons_skip hp h, fun h x hx => h x (List.mem_cons_of_mem _ hx)⟩⟩
+    | row r =>
+      refine ⟨(ih (applyRow d r)).1, (ih (applyRow d r)).2.trans ⟨?_, fun h x hx => h x (List.mem_cons_of_mem _ hx)⟩⟩
+      intro h x hx e
+      rcases List.mem_cons.mp hx with rfl | hx
+      · rw [hp]; simp
+      · exact h x hx e
+    | err e =>
+      refine ⟨rfl, ?_⟩
+      simp only [reduceCtorEq, false_iff]
+      intro h
+      exact h l (List.mem_cons_self ..) e hp
+
+theorem patch_text_roundtrip : Statement_patch_text_roundtrip := by
+  intro s h d2 hid hprev
+  rw [serializeDoc_target]
+  have hr := docRows_frame hid hprev (noErr_diffBody s d2)
+  refine ⟨noErr_frame hid hprev (noErr_diffBody s d2), ⟨_, _, hr.trans (docRows_diffBody s d2),
+    setEq_stmts_quadSrc h _, setEq_stmts_quadSrc h _⟩, ?_⟩
+  rintro ⟨op, q⟩
+  rw [hr, docRows_diffBody, List.mem_append, mem_tagRows, mem_tagRows, setEq_stmts_quadSrc h _ q,
+    setEq_stmts_quadSrc h _ q, mem_diff, mem_qdiff, mem_qdiff]
+
+theorem patch_text_apply : Statement_patch_text_apply := by
+  intro s h d2 hid hprev
+  obtain ⟨hn, _, hrows⟩ := patch_text_roundtrip s h d2 hid hprev
+  rw [parseDoc_noErr hn]
+  exact ⟨rfl, patch_any_order s.d d2 _ hrows⟩
+
+theorem patch_operation_doc : Statement_patch_operation_doc := by
+  intro s hid hprev
+  have key : ∀ o target, NoErr (serializeDoc (some o) target hid hprev s) ∧
+      docRows (serializeDoc (some o) target hid hprev s) = tagRows o (stmts (emitPatch s)) := by
+    intro o target
+    rw [serializeDoc_operation]
+    exact ⟨noErr_frame hid hprev (noErr_writeTriples _ _ _ _),
+      (docRows_frame hid hprev (noErr_writeTriples _ _ _ _)).trans (docRows_writeTriples _ _ _ _)⟩
+  refine ⟨key, serializeDoc_default hid hprev s, ?_⟩
+  intro hw target
+  constructor
+  · rw [parseDoc_noErr (key .add target).1, (key .add target).2]
+    intro x
+    rw [mem_apply _ _ (fun q _ h2 => by simp [mem_tagRows] at h2) x, mem_tagRows, mem_tagRows]
+    simp only [true_and, List.not_mem_nil, false_and, or_false]
+    exact setEq_stmts_emit .patch hw x
+  · rw [parseDoc_noErr (key .del target).1, (key .del target).2]
+    intro x
+    rw [mem_apply _ _ (fun q h1 _ => by simp [mem_tagRows] at h1) x, mem_tagRows, mem_tagRows]
+    simp only [reduceCtorEq, false_and, false_or, true_and, List.not_mem_nil, iff_false, not_and, Classical.not_not]
+    intro hx
+    exact (setEq_stmts_emit .patch hw x).mpr hx
+
+
+/-! ### Round g — TriG loops: proofs -/
+
+theorem trig_loop_refines : Statement_trig_loop_refines := emitTrigLoop_eq
+
+theorem each_triple_one_block_trig_loop : Statement_each_triple_one_block_trig_loop := by
+  intro s h
+  rw [trig_loop_refines s]
+  refine ⟨each_triple_one_block .trig s h, ?_, ?_, quad_roundtrip .trig s h⟩
+  · have hd : ∀ g, dest (trigSpell s g) = g := by
+      intro g
+      unfold trigSpell
+      split
+      · next hg => rw [hg, h.dflt]; rfl
+      · rfl
+    have e : (emitTrig s).map (fun b => dest b.spell) =
+        (dedup (ctxPlusDefault s)).filter (fun g => !(triplesOf s.d g).isEmpty) := by
+      unfold emitTrig
+      rw [List.map_map]
+      conv => rhs; rw [← List.map_id (List.filter _ _)]
+      apply List.map_congr_left
+      intro g _
+      simp [blockOf, hd]
+    rw [e]
+    exact (nodup_dedup _).sublist List.filter_sublist
+  · intro b hb
+    unfold emitTrig at hb
+    obtain ⟨g, hg, rfl⟩ := List.mem_map.mp hb
+    have := (List.mem_filter.mp hg).2
+    intro hnil
+    simp [blockOf] at hnil
+    simp [hnil] at this
+
 /-! ### Non-vacuity: a dataset with a non-empty default graph, an IRI-named graph, a blank-node-named
     graph whose name is also a subject and an object elsewhere, a triple present in two graphs, a
     blank node shared across graphs, a registered empty graph, a graph listed twice -/
@@ -230,6 +424,30 @@ example : CgWF exCg := ⟨rfl, rfl, by unfold Covers; decide⟩
 example : (emit .trig exCg).map (·.spell) = [.unnamed, .named (.iri 4), .named (.bnode 1)] := by decide
 example : (emit .nquads exCg).map (·.spell) = [.named (.bnode 99), .named (.iri 4), .named (.bnode 1)] := by decide
 example : (emit .jsonld exCg).map (·.spell) = [.unnamed, .named (.iri 4), .named (.bnode 1)] := by decide
+
+example : (emitTrigLoop exSrc).map (fun b => (b.spell, b.triples)) = (emitTrig exSrc).map (fun b => (b.spell, b.triples)) := by decide
+example : (trigPreprocess exSrc (ctxPlusDefault exSrc) []).map (·.1) = [.iri 4, .bnode 1, .default] := by decide
+
+/-! ### Round g, non-vacuity: the patch document between `exSrc` and a second dataset, and a hand-made document -/
+
+example : serializeDoc none (some [((.iri 1, .iri 7, .lit 2), .iri 4), ((.iri 5, .iri 7, .lit 2), .bnode 1)]) (some 2) none exSrc =
+    [codeLine .H (.hdr false 2), codeLine .TX .dot,
+     codeLine .A (.quad (.plain (.iri 5)) (.iri 7) (.plain (.lit 2)) (.plain (.bnode 1))),
+     codeLine .D (.quad (.plain (.iri 1)) (.iri 7) (.plain (.lit 2)) .none),
+     codeLine .D (.quad (.plain (.iri 1)) (.iri 8) (.plain (.bnode 1)) .none),
+     codeLine .D (.quad (.plain (.bnode 1)) (.iri 7) (.plain (.bnode 2)) (.plain (.bnode 1))),
+     codeLine .D (.quad (.plain (.bnode 2)) (.iri 7) (.plain (.lit 3)) (.plain (.iri 4))),
+     codeLine .TC .dot] := by decide
+
+/-- `AA` is read as an add (`lstrip`), `AD` raises, `<_:2>` is blank node 2, a row after `TA` still counts,
+    an unknown word is a ValueError that leaves what was done -/
+example : parseDoc [.comment, .cmd ['T', 'X'] .dot, .cmd ['A', 'A'] (.quad (.angle 2) (.iri 7) (.plain (.lit 1)) (.angle 3)),
+      .cmd ['T', 'A'] .none, .cmd ['D'] (.quad (.plain (.iri 1)) (.iri 7) (.plain (.lit 2)) .none), .blank,
+      .cmd ['X'] .none, .cmd ['A'] (.quad (.plain (.iri 1)) (.iri 7) (.plain (.lit 9)) .none)]
+      [((.iri 1, .iri 7, .lit 2), .default)] =
+    ([((.bnode 2, .iri 7, .lit 1), .bnode 3)], some .valueError) := by decide
+
+example : parseLine (.cmd ['A', 'D'] (.quad (.plain (.iri 1)) (.iri 7) (.plain (.lit 9)) .none)) = .err .parseError := by decide
 
 /-! ### The defects of the pinned code (before the `fix:` commits), kept as regression witnesses -/
 
